@@ -98,6 +98,7 @@ const (
 	spareNodes = 4   // node keys beyond the genesis validators (candidates)
 	outsiders  = 4   // accounts that are never node keys (owners, relayers, outsiders)
 	outBase    = 100 // first outsider account index in the world key pool
+	ownerBase  = 200 // first owner-wallet account index (wallets that own nodes but are no node key)
 	numChains  = 3   // side-chain ids 1..numChains
 	numVariant = 5
 )
@@ -116,14 +117,17 @@ type eng struct {
 	rlReg, rlRem, svReg, svRem int // number of accepted requests so far = next request id
 }
 
-func newEng(ctx *ev.Ctx, n int, mbcv uint32) *eng {
+func newEng(ctx *ev.Ctx, n int, mbcv uint32, own int) *eng {
 	e := &eng{ctx: ctx, n: n, byAddr: map[common.Address]int{}, labels: map[string]bool{}}
-	e.w = newWorld(n, mbcv)
+	e.w = newWorld(n, mbcv, own)
 	for i := 0; i < n+spareNodes; i++ {
 		e.actors = append(e.actors, world.Acct(i))
 	}
 	for i := 0; i < outsiders; i++ {
 		e.actors = append(e.actors, world.Acct(outBase+i))
+	}
+	for i := 0; i < n; i++ { // owner wallets (separate from every node key), indices n+8 .. 2n+7
+		e.actors = append(e.actors, world.Acct(ownerBase+i))
 	}
 	for i, a := range e.actors {
 		e.byAddr[a.Address] = i
@@ -142,8 +146,27 @@ func newEng(ctx *ev.Ctx, n int, mbcv uint32) *eng {
 var sharedStore *leveldbstore.LevelDBStore
 var sharedOverlay *overlaydb.OverlayDB
 
-func newWorld(n int, mbcv uint32) *world.World {
-	if os.Getenv("PGOV_FRESH_WORLD") != "" {
+// ownerOf is the wallet that owns genesis validator i (PeerPoolItem.Address) under ownership
+// layout own: 0 the node's own address (conventional), 1 a separate wallet per node, 2 one wallet
+// per two nodes, 3 one wallet per three nodes, 4 odd nodes separately owned, even nodes self-owned.
+func ownerOf(i, own int) *account.Account {
+	switch mod(own, 5) {
+	case 1:
+		return world.Acct(ownerBase + i)
+	case 2:
+		return world.Acct(ownerBase + i/2)
+	case 3:
+		return world.Acct(ownerBase + i/3)
+	case 4:
+		if i%2 == 1 {
+			return world.Acct(ownerBase + i)
+		}
+	}
+	return world.Acct(i)
+}
+
+func newWorld(n int, mbcv uint32, own int) *world.World {
+	if os.Getenv("PGOV_FRESH_WORLD") != "" && mod(own, 5) == 0 {
 		return world.New(n, world.Opts{MaxBlockChangeView: mbcv})
 	}
 	world.ResetGlobals(0)
@@ -163,7 +186,11 @@ func newWorld(n int, mbcv uint32) *world.World {
 	w.Cache = storage.NewCacheDB(w.Overlay)
 	w.Validators = world.Accts(0, n)
 	sink := common.NewZeroCopySink(nil)
-	world.VBFTConfigFor(w.Validators, mbcv).Serialization(sink)
+	cfg := world.VBFTConfigFor(w.Validators, mbcv)
+	for i := range cfg.Peers { // the owner wallet is free in the genesis config: not tied to the peer public key
+		cfg.Peers[i].Address = ownerOf(i, own).Address.ToBase58()
+	}
+	cfg.Serialization(sink)
 	if r := w.Invoke(utils.NodeManagerContractAddress, "initConfig", sink.Bytes(), nil); r.Err != nil {
 		panic("pgov: genesis initConfig failed: " + r.Err.Error())
 	}
@@ -538,11 +565,22 @@ func hasNotify(r world.Result, name string) bool {
 func (e *eng) exec(op gop) stepRes {
 	sr := stepRes{op: op, t: e.targetOf(op.K, op)}
 	a := e.actor(op.A)
+	if op.A < 0 && (op.K == kQuit || op.K == kUnregCand) { // A<0: "the wallet that registered this peer"
+		if it, ok := e.pool().Items[sr.t.pub]; ok && op.K == kQuit {
+			if i, ok := e.byAddr[it.Address]; ok {
+				a = e.actors[i]
+			}
+		} else if p, err := node_manager.GetPeerApply(e.w.Service(), sr.t.pub); err == nil && p != nil {
+			if i, ok := e.byAddr[p.Address]; ok {
+				a = e.actors[i]
+			}
+		}
+	}
 	sr.acting = a.Address
 	signers := []common.Address{a.Address}
 	sr.witness = true
 	if op.W == 1 && op.K != kCommit && op.K != kUpdCfg {
-		signers = []common.Address{e.actor(op.A + 1).Address}
+		signers = []common.Address{e.actors[mod(e.byAddr[a.Address]+1, len(e.actors))].Address}
 		sr.witness = signers[0] == a.Address
 	}
 	nm, sc, rl, sv := utils.NodeManagerContractAddress, utils.SideChainManagerContractAddress, utils.RelayerManagerContractAddress, utils.Neo3StateManagerContractAddress
@@ -695,9 +733,16 @@ func (e *eng) expand(op gop) []gop {
 	if !isApprove(op.M) {
 		return nil
 	}
-	_, order, n := e.pool().consensus()
+	pl := e.pool()
+	_, order, n := pl.consensus()
 	if len(order) == 0 {
 		return nil
+	}
+	ownerOfNode := map[common.Address]common.Address{}
+	for k, it := range pl.Items {
+		if a, ok := addrOfPub(k); ok {
+			ownerOfNode[a] = it.Address
+		}
 	}
 	cnt := op.C
 	switch {
@@ -716,11 +761,17 @@ func (e *eng) expand(op gop) []gop {
 	var out []gop
 	for i := 0; i < cnt; i++ {
 		ad := order[mod(op.A+i, len(order))]
-		idx, ok := e.byAddr[ad]
-		if !ok {
-			continue // a consensus key outside the actor table (re-initialised pool)
+		// W: 0 the validators' node addresses approve, 2 their owner wallets, 3 both
+		if op.W == 0 || op.W == 3 {
+			if idx, ok := e.byAddr[ad]; ok { // (a consensus key outside the actor table: re-initialised pool)
+				out = append(out, gop{K: op.M, A: idx, B: op.B, V: op.V, L: op.L})
+			}
 		}
-		out = append(out, gop{K: op.M, A: idx, B: op.B, V: op.V, L: op.L})
+		if op.W == 2 || op.W == 3 {
+			if idx, ok := e.byAddr[ownerOfNode[ad]]; ok {
+				out = append(out, gop{K: op.M, A: idx, B: op.B, V: op.V, L: op.L})
+			}
+		}
 	}
 	return out
 }
@@ -760,7 +811,7 @@ func dumpDiff(a, b [][2][]byte) (changed [][]byte) {
 // ---------------------------------------------------------------------------------------------
 // shared generator pieces
 
-func genActor(n int) *rapid.Generator[int] { return rapid.IntRange(0, n+spareNodes+outsiders-1) }
+func genActor(n int) *rapid.Generator[int] { return rapid.IntRange(0, n+spareNodes+outsiders+n-1) }
 
 func genApproveTarget(t *rapid.T, n int, k string, op *gop) {
 	switch k {
@@ -809,7 +860,7 @@ func genRequest(t *rapid.T, n int, kinds []string) gop {
 		op.C = rapid.IntRange(0, 11).Draw(t, "content")
 	case kRlReg, kRlRem, kSvReg, kSvRem:
 		op.A = genActor(n).Draw(t, "by")
-		op.L = rapid.SliceOfN(rapid.IntRange(n+spareNodes, n+spareNodes+outsiders-1), 1, 3).Draw(t, "list")
+		op.L = rapid.SliceOfN(rapid.IntRange(n+spareNodes, n+spareNodes+outsiders-1), 0, 3).Draw(t, "list")
 	case kRegCand, kUnregCand:
 		op.B = rapid.IntRange(n, n+spareNodes-1).Draw(t, "peer")
 		op.A = op.B // the node's own account is its owner
@@ -829,7 +880,10 @@ func genPoolOp(t *rapid.T, n int) gop {
 	switch k {
 	case kQuit:
 		op.B = rapid.IntRange(0, n+spareNodes-1).Draw(t, "peer")
-		op.A = op.B
+		op.A = -1 // the wallet that registered the peer
+		if rapid.IntRange(0, 4).Draw(t, "byNode") == 0 {
+			op.A = op.B
+		}
 	case kCommit:
 		if rapid.IntRange(0, 3).Draw(t, "byActor") == 0 {
 			op.W = 1
